@@ -22,6 +22,12 @@ EXTENDS Naturals, Sequences, FiniteSets, TLC
 
 CREATE == "CreateContainer"
 
+\* what a call to a plugin can return when its connection fails or it does not answer (ttrpc.ErrClosed,
+\* ErrServerClosed, ErrProtocol, context.DeadlineExceeded, or the multiplexer's raw error for a frame that was
+\* cut short), and which of these plugin.go's isFatalError classifies as "drop the plugin, go on"
+ErrKinds == {"closed", "server-closed", "protocol", "deadline", "truncated"}
+CONSTANT FatalKinds
+
 VARIABLES
   idx,      \* plugin -> index 0..99            (domain: plugins that reached registration)
   mask,     \* plugin -> set of subscribed events
@@ -29,7 +35,7 @@ VARIABLES
   dead,     \* plugins whose connection is closed (dropped, failed or left)
   active,   \* sequence of plugins in invocation order (the code's r.plugins)
   rlock,    \* holder of the adaptation lock, "" if free
-  cur,      \* what the holder is doing: [op, id, ev, ctr, plist, pos, veto, visited]
+  cur,      \* what the holder is doing: [op, id, ev, ctr, plist, pos, veto, cause, visited]
   swriter,  \* plugin holding the sync lock exclusively, "" if none
   readers,  \* set of sync-block tokens held (shared holders)
   seen,     \* plugin -> sequence of request ids delivered to its handlers
@@ -41,7 +47,8 @@ VARIABLES
 
 rvars == <<idx, mask, pst, dead, active, rlock, cur, swriter, readers, seen, store, snap, created, lockseq, cin>>
 
-NoCur == [op |-> "", id |-> "", ev |-> "", ctr |-> "", plist |-> <<>>, pos |-> 0, veto |-> "no", visited |-> <<>>]
+NoCur == [op |-> "", id |-> "", ev |-> "", ctr |-> "", plist |-> <<>>, pos |-> 0, veto |-> "no", cause |-> "",
+          visited |-> <<>>]
 
 RInit ==
   /\ idx = [p \in {} |-> 0] /\ mask = [p \in {} |-> {}] /\ pst = [p \in {} |-> ""] /\ dead = {}
@@ -123,7 +130,7 @@ Lock(h, op, id, ev, ctr) ==
   /\ rlock = ""
   /\ rlock' = h
   /\ cur' = [op |-> op, id |-> id, ev |-> ev, ctr |-> ctr, plist |-> active, pos |-> 0,
-             veto |-> "no", visited |-> <<>>]
+             veto |-> "no", cause |-> "", visited |-> <<>>]
   /\ lockseq' = IF op = "request" THEN Append(lockseq, id) ELSE lockseq
   /\ UNCHANGED <<idx, mask, pst, dead, active, swriter, readers, seen, store, snap, created, cin>>
 
@@ -149,7 +156,16 @@ Deliver(p) ==
 \* the handler of the plugin visited last failed the request deliberately
 Veto ==
   /\ rlock # "" /\ cur.op = "request" /\ cur.veto = "no" /\ Len(cur.visited) > 0
-  /\ cur' = [cur EXCEPT !.veto = "yes"]
+  /\ cur' = [cur EXCEPT !.veto = "yes", !.cause = "handler"]
+  /\ UNCHANGED <<idx, mask, pst, dead, active, rlock, swriter, readers, seen, store, snap, created, lockseq, cin>>
+
+\* the call to the plugin visited last - whose connection failed during this request - returns an error of
+\* kind k: a fatal kind drops the plugin and the relay goes on; any other kind would fail the request
+CallError(k) ==
+  /\ rlock # "" /\ cur.op = "request" /\ cur.veto = "no" /\ Len(cur.visited) > 0
+  /\ k \in ErrKinds
+  /\ LET p == cur.visited[Len(cur.visited)] IN p \in dead /\ p \in DOMAIN cin /\ cin[p] = cur.id
+  /\ cur' = IF k \in FatalKinds THEN cur ELSE [cur EXCEPT !.veto = "yes", !.cause = "transport"]
   /\ UNCHANGED <<idx, mask, pst, dead, active, rlock, swriter, readers, seen, store, snap, created, lockseq, cin>>
 
 RelayDone == cur.veto # "no" \/ \A k \in (cur.pos + 1)..Len(cur.plist) : ~MustVisit(k)
@@ -172,6 +188,9 @@ PluginClosed(p) ==
   /\ UNCHANGED <<idx, mask, pst, active, rlock, swriter, readers, seen, store, snap, created, lockseq>>
 
 \* -------------------------------------------------------------- invariants --
+\* C07: only a handler's deliberate error fails a request; a failing connection never does
+OnlyHandlersVeto == cur.veto = "yes" => cur.cause = "handler"
+
 Sorted == SortedSeq(active)
 
 OncePerRequest == \A p \in DOMAIN seen : NoDup(seen[p])
